@@ -1,5 +1,5 @@
 (* C12 -- RUN, CLEAR and NEW reset state completely. *)
-From BL Require Import Base.Prelude Mach.Val Mach.Var Mach.Compile Mach.Listing Mach.Runtime.
+From BL Require Import Base.Prelude Mach.Val Mach.Var Mach.Compile Mach.Listing Mach.Runtime Proofs.FnCall.
 Local Open Scope N_scope.
 
 (* CLEAR leaves variables, arrays, type defaults, user functions, the value stack, the DATA position
@@ -27,3 +27,9 @@ Theorem C12_new : forall (O : oracle) r,
   /\ r_vars r' = vars_empty /\ r_fns r' = [] /\ r_stack r' = [].
 Proof. intros O r. cbn. repeat split; reflexivity. Qed.
 Print Assumptions C12_new.
+
+(* RUN compiles to CLEAR followed by a jump to the line (or to the start of the program) *)
+Theorem C12_run_is_clear_then_jump : forall c n l, lenN (l_ops l) + 2 <= MAX_POOL ->
+  l_ops (fst (l_push_run c n l)) = l_ops l ++ [OpClear; OpJump 0] /\ snd (l_push_run c n l) = Ok tt.
+Proof. exact run_is_clear_then_jump. Qed.
+Print Assumptions C12_run_is_clear_then_jump.
